@@ -14,5 +14,5 @@ for d in "$@"; do
   n=$(echo "$f" | grep -c "FINDING")
   echo "== $d : alarms=$n"
   echo "$f" | cut -c1-330
-  echo "$all" | grep -i "LOAD ERROR\|panic" | cut -c1-300
+  echo "$all" | grep "LOAD ERROR\|^panic:\|^goroutine " | cut -c1-300
 done
